@@ -363,3 +363,103 @@ Qed.
 End TableExt.
 
 End Whole.
+
+(* ------------------------------------------------------------------ round 9 (3): the verifier's evaluate_constraints, E != B *)
+Section VerifierExt.
+Context {B E : Type} (OB : FOps B) (OE : FOps E) (LB : FLaws OB) (LE : FLaws OE).
+Variable emb : B -> E.
+Variable mul_base : E -> B -> E.
+Hypothesis H : Emb OB OE emb mul_base.
+
+Definition embBCa (c : @BCa B E) : @BC E := mkBC (a_col c) (a_poly c) (a_first c) (emb (a_xoff c)) (a_cc c).
+Definition embGa (g : @BGa B E) : @BGroup E := mkBG (embD emb (ga_div g)) (map embBCa (ga_cs g)).
+
+Lemma div_evaluate_at_mixed_embeds d x : div_evaluate_at_mixed OE emb d x = div_evaluate_at OE (embD emb d) x.
+Proof.
+  unfold div_evaluate_at_mixed, div_evaluate_at, div_exemptions_at, embD. cbn [dv_a dv_b dv_ex]. f_equal.
+  generalize (fone OE). induction (dv_ex d) as [|a l IH]; intros acc; cbn [map fold_left]; [reflexivity | apply IH].
+Qed.
+
+Lemma acc_opt_ext' {A} (f g : A -> option E) l init : (forall x, In x l -> f x = g x) -> acc_opt OE f l init = acc_opt OE g l init.
+Proof.
+  revert init. unfold acc_opt. induction l as [|a l IH]; intros init Hx; [reflexivity|]. cbn [fold_left].
+  rewrite (Hx a (or_introl eq_refl)). apply IH. intros x Hin. apply Hx. now right.
+Qed.
+Lemma acc_opt_map' {A A'} (f : A' -> option E) (k : A -> A') l init :
+  acc_opt OE f (map k l) init = acc_opt OE (fun c => f (k c)) l init.
+Proof. revert init. unfold acc_opt. induction l; intros; simpl; [reflexivity | apply IHl]. Qed.
+
+Lemma gm_evaluate_at_embeds g state x : gm_evaluate_at OB OE emb g state x = bg_evaluate_at OE (embG emb g) state x.
+Proof.
+  unfold gm_evaluate_at, bg_evaluate_at, embG. cbn [bg_div bg_cs]. rewrite acc_opt_map', div_evaluate_at_mixed_embeds.
+  rewrite (acc_opt_ext' _ (fun c => match nth_error state (bc_col (embBC emb c)) with
+                                    | Some tv => Some (fmul OE (bc_evaluate_at OE (embBC emb c) x tv) (bc_cc (embBC emb c)))
+                                    | None => None end)); [reflexivity|].
+  intros c _. cbn [embBC bc_col bc_cc]. destruct (nth_error state (m_col c)); [|reflexivity].
+  now rewrite (bc_evaluate_at_mixed_embeds OB OE emb (m_col c) (m_first c) (m_poly c) (m_xoff c) (m_cc c)).
+Qed.
+
+Lemma ga_evaluate_at_embeds g state x : ga_evaluate_at OE emb g state x = bg_evaluate_at OE (embGa g) state x.
+Proof.
+  unfold ga_evaluate_at, bg_evaluate_at, embGa. cbn [bg_div bg_cs]. rewrite acc_opt_map', div_evaluate_at_mixed_embeds.
+  reflexivity.
+Qed.
+
+Variable n : nat.
+Variable rou : nat -> B.
+Variable num_main num_aux : nat.
+Variable tmainE : list E -> list E -> list E -> list E.
+Variable tauxE : list E -> list E -> list E -> list E -> list E -> list E -> list E.
+Variable ppolys : list (list B).
+Variable exemptions : nat.
+Variable tcoef : list E.
+Variable main_groups : list (@BGm B E).
+Variable aux_groups : list (@BGa B E).
+Variable rands : list E.
+Local Notation rouE := (fun m => emb (rou m)).
+
+(* verifier_evaluate_constraints_ext, part 1: the mixed evaluate_constraints is the single-field one over OE on embedded data *)
+Theorem evaluate_constraints_mixed_embeds cur nxt auxf x :
+  evaluate_constraints_mixed OB OE emb n rou num_main num_aux tmainE tauxE ppolys exemptions tcoef main_groups aux_groups rands cur nxt auxf x
+  = evaluate_constraints OE n rouE num_main tmainE tauxE num_aux (map (map emb) ppolys) exemptions tcoef
+                         (map (embG emb) main_groups) (map embGa aux_groups) rands (fun _ => None) cur nxt auxf x.
+Proof.
+  unfold evaluate_constraints_mixed, evaluate_constraints, combine_evaluations.
+  rewrite (periodic_at_mixed_embeds OE emb), div_evaluate_at_mixed_embeds, <- (emb_tdiv OB OE emb mul_base H).
+  rewrite (acc_opt_ext' (fun g => gm_evaluate_at OB OE emb g cur x) (fun g => bg_evaluate_at OE (embG emb g) cur x))
+    by (intros g _; apply gm_evaluate_at_embeds).
+  destruct auxf as [[ac an]|]; rewrite ?acc_opt_map'.
+  - rewrite (acc_opt_ext' (fun g => ga_evaluate_at OE emb g ac x) (fun g => bg_evaluate_at OE (embGa g) ac x))
+      by (intros g _; apply ga_evaluate_at_embeds).
+    match goal with |- ?l = match ?r with Some _ => _ | None => _ end => replace r with l by reflexivity; destruct l; reflexivity end.
+  - match goal with |- ?l = match ?r with Some _ => _ | None => _ end => replace r with l by reflexivity; destruct l; reflexivity end.
+Qed.
+
+(* part 2: on the frame of the (embedded) trace polynomials at z it is comp_def over E with the embedded data *)
+Variable tpolys : list (list B).
+Variable apolys : list (list E).
+Hypothesis groups_no_exemptions :
+  (forall g, In g main_groups -> dv_ex (gm_div g) = []) /\ (forall g, In g aux_groups -> dv_ex (ga_div g) = []).
+Hypothesis main_cols : forall g c, In g main_groups -> In c (gm_cs g) -> m_col c < length tpolys.
+Hypothesis aux_cols : forall g c, In g aux_groups -> In c (ga_cs g) -> a_col c < length apolys.
+Hypothesis tmain_len : forall cur nxt pv, length (tmainE cur nxt pv) = num_main.
+
+Theorem verifier_evaluate_constraints_ext z :
+  let tE := map (map emb) tpolys in
+  evaluate_constraints_mixed OB OE emb n rou num_main num_aux tmainE tauxE ppolys exemptions tcoef main_groups aux_groups rands
+    (def_cur OE tE z) (def_nxt OE n rouE tE z) (Some (def_acur OE apolys z, def_anxt OE n rouE apolys z)) z
+  = Some (comp_def OE n rouE tmainE tauxE (map (map emb) ppolys) exemptions tcoef (map (embG emb) main_groups) (map embGa aux_groups)
+                   rands true tE apolys z).
+Proof.
+  intros tE. rewrite evaluate_constraints_mixed_embeds.
+  apply (verifier_eval_agrees_aux OE LE).
+  - intros g Hg. apply in_app_or in Hg. destruct Hg as [Hg|Hg]; apply in_map_iff in Hg; destruct Hg as [g0 [<- Hg0]].
+    + cbn [embG bg_div embD dv_ex]. now rewrite (proj1 groups_no_exemptions g0 Hg0).
+    + cbn [embGa bg_div embD dv_ex]. now rewrite (proj2 groups_no_exemptions g0 Hg0).
+  - intros g c Hg Hc. apply in_map_iff in Hg. destruct Hg as [g0 [<- Hg0]]. cbn [embG bg_cs] in Hc.
+    apply in_map_iff in Hc. destruct Hc as [c0 [<- Hc0]]. unfold tE. rewrite map_length. cbn [embBC bc_col]. now apply (main_cols g0).
+  - intros g c Hg Hc. apply in_map_iff in Hg. destruct Hg as [g0 [<- Hg0]]. cbn [embGa bg_cs] in Hc.
+    apply in_map_iff in Hc. destruct Hc as [c0 [<- Hc0]]. cbn [embBCa bc_col]. now apply (aux_cols g0).
+  - exact tmain_len.
+Qed.
+End VerifierExt.
